@@ -16,6 +16,9 @@ CONSTANTS
   Edges = FALSE
   KSps = {"lower"}
   MKs = {"k"}
+  Unit = 2
+  Multi = FALSE
+  XVs = {"one"}
   Depth = 1
   Emit = TRUE
 INVARIANTS InvNoPanic InvCompleteness InvSoundness InvValues InvHistoryIndependent InvClassesDisjoint PrintVec
